@@ -254,7 +254,7 @@ tainted<T*, T_Sbx> copy_memory_or_grant_access(rlbox_sandbox<T_Sbx>& sandbox,
   copied = false;
 
   // This function is meant for byte buffers only
-  static_assert(can_type_be_memcopied<std::remove_pointer_t<T>>,
+  static_assert(can_type_be_memcopied<T>,
                 "copy_memory_or_grant_access not supported on this type as "
                 "there may be ABI differences");
 
@@ -351,7 +351,7 @@ T* copy_memory_or_deny_access(rlbox_sandbox<T_Sbx>& sandbox,
   copied = false;
 
   // This function is meant for byte buffers only - so char and char16
-  static_assert(can_type_be_memcopied<std::remove_pointer_t<T>>,
+  static_assert(can_type_be_memcopied<T>,
                 "copy_memory_or_deny_access not supported on this type as "
                 "there may be ABI differences");
 
